@@ -1375,8 +1375,14 @@ impl Recv {
         queues: &mut Vec<(&'static str, Vec<u32>)>,
     ) {
         out.push(("recv_init_window_sz", self.init_window_sz as i64));
-        out.push(("recv_flow_window", isize::from(self.flow.window_size_raw()) as i64));
-        out.push(("recv_flow_available", isize::from(self.flow.available()) as i64));
+        out.push((
+            "recv_flow_window",
+            isize::from(self.flow.window_size_raw()) as i64,
+        ));
+        out.push((
+            "recv_flow_available",
+            isize::from(self.flow.available()) as i64,
+        ));
         out.push(("recv_in_flight_data", self.in_flight_data as i64));
         out.push((
             "recv_next_stream_id",
@@ -1385,7 +1391,10 @@ impl Recv {
                 Err(_) => -1,
             },
         ));
-        out.push(("recv_last_processed_id", u32::from(self.last_processed_id) as i64));
+        out.push((
+            "recv_last_processed_id",
+            u32::from(self.last_processed_id) as i64,
+        ));
         out.push(("recv_max_stream_id", u32::from(self.max_stream_id) as i64));
         out.push(("recv_buffer_len", self.buffer.verif_len() as i64));
         out.push((
